@@ -480,6 +480,7 @@ where
     /// # Panics
     ///
     /// * Panics if, for any arc `u -> v` in `iter`, `u` equals `v`.
+    /// * Panics if `u` or `v` equals `usize::MAX`.
     fn from(iter: I) -> Self {
         let mut order = 0;
         let mut arcs = BTreeSet::new();
@@ -493,7 +494,9 @@ where
 
         Self {
             arcs,
-            order: order + 1,
+            order: order
+                .checked_add(1)
+                .expect("a digraph has at most `usize::MAX` vertices"),
         }
     }
 }
